@@ -361,6 +361,38 @@ PROPS = {
         "windows/pause/suspended chain, prerun on every tick, init args "
         "carrying cgroup=<instance>; ASan/UBSan guard the discard path.",
     },
+    "C12": {
+        "flavours": ["asan"],
+        "shrink_budget": 0,
+        "runs": {"quick": 4000, "thorough": 150000},
+        "rule": "one case = (a) a generated valid base configuration over the "
+        "16 plugins of the argument table with 0-2 mutations (missing / "
+        "undeclared / wrongly shaped / unknown parts, value faults for every "
+        "numeric, size, bool and enum argument and ruleset field: overflow, "
+        "1e30, nan, inf, trailing garbage, signs, blanks, empty; truncated or "
+        "garbled text), loaded through the real start-up path; (b) the same "
+        "for a drop-in document injected at tick 1 through the real "
+        "compileDropIn / DropInServiceAdaptor into a running engine; (c) "
+        "exactness probes: memory_above / kill_by_swap_usage thresholds "
+        "written as bytes, suffixed components, bare megabytes or N% and "
+        "probed behaviourally at T and T+1; non-trivial = a verdict or probe "
+        "was judged; distinct = distinct event-log hash",
+        "level_text": "seeded generation and mutation (not enumeration); "
+        "oracle = reference acceptor: every mutation operator carries the "
+        "verdict the documentation implies (must reject / valid / "
+        "unspecified) from a per-plugin argument table; rejection must be an "
+        "error result (no exception from compile/compileDropIn, no "
+        "sanitizer report), a refused drop-in leaves the engine's call log "
+        "identical to the base-only reference, accepted documents initialise "
+        "the scripted plugins in order with exactly the given arguments, and "
+        "size / percent thresholds act at exactly the rational value "
+        "computed by the reference parser.",
+        "level_note": "the argument table (sim/props/c12.cpp) and the "
+        "verdict attached to each mutation operator are part of the trusted "
+        "base; spellings the documentation does not settle abstain and are "
+        "counted; the run-time clause under real watcher-thread "
+        "interleavings is exercised by C14's invalid contents",
+    },
     "C13": {
         "flavours": ["asan"],
         "runs": {"quick": 4000, "thorough": 150000},
